@@ -183,7 +183,13 @@ func pickCfg(r *Rng, tier string) GenCfg {
 
 // shrinkSets minimises a list of path sets under `fails`; delta-debugs paths, then vertices,
 // then halves coordinates.
-func shrinkSets(sets []clip.Paths64, fails func([]clip.Paths64) bool) []clip.Paths64 {
+func shrinkSets(sets []clip.Paths64, fails func([]clip.Paths64) bool, minVerts ...int) []clip.Paths64 {
+	minOf := func(s int) int {
+		if s < len(minVerts) {
+			return minVerts[s]
+		}
+		return shrinkMinVerts
+	}
 	cur := make([]clip.Paths64, len(sets))
 	for i := range sets {
 		cur[i] = clonePaths(sets[i])
@@ -215,7 +221,7 @@ func shrinkSets(sets []clip.Paths64, fails func([]clip.Paths64) bool) []clip.Pat
 		for s := range cur {
 			for i := range cur[s] {
 				for j := 0; j < len(cur[s][i]); j++ {
-					if len(cur[s][i]) <= 3 {
+					if len(cur[s][i]) <= minOf(s) {
 						break
 					}
 					c := copySets(cur)
@@ -249,6 +255,10 @@ func shrinkSets(sets []clip.Paths64, fails func([]clip.Paths64) bool) []clip.Pat
 	}
 	return cur
 }
+
+// minimum vertex count a shrunk path keeps (3 for polygons; stages with polylines tolerate 2 by
+// re-checking validity in their predicate)
+var shrinkMinVerts = 3
 
 func copySets(sets []clip.Paths64) []clip.Paths64 {
 	out := make([]clip.Paths64, len(sets))
